@@ -138,7 +138,16 @@ fn prop_item(owner: u8, p: &Prop, idx: usize) -> Node {
 }
 
 /// All single-fault candidates for one well-formed frame of `family`, unfiltered.
-fn candidates(family: Family, ast: &Ast, f: &Frame) -> Vec<(&'static str, String, Frame, Viol)> {
+/// byte values used where the full range 0..=255 is thinned out
+fn thin_bytes(thin: bool, all: std::ops::RangeInclusive<u8>) -> Vec<u8> {
+    if !thin {
+        return all.collect();
+    }
+    let keep = [0u8, 1, 2, 3, 4, 5, 6, 0x0A, 0x10, 0x2B, 0x7F, 0x80, 0x81, 0x83, 0x84, 0x85, 0x93, 0xA3, 0xFE, 0xFF];
+    all.filter(|b| keep.contains(b)).collect()
+}
+
+fn candidates(family: Family, ast: &Ast, f: &Frame, thin: bool) -> Vec<(&'static str, String, Frame, Viol)> {
     let v5 = family == Family::V5;
     let t = f.control >> 4;
     let mut out: Vec<(&'static str, String, Frame, Viol)> = Vec::new();
@@ -234,8 +243,8 @@ fn candidates(family: Family, ast: &Ast, f: &Frame) -> Vec<(&'static str, String
                     put("utf8-flagged-payload-not-utf8", Node::tag(tag, Node::raw(b)), Viol::BadPayloadFormat);
                 }
             }
-            Tag::Code(pt, _) => {
-                for n in 0..=255u8 {
+            Tag::Code(pt, pos) => {
+                for n in thin_bytes(thin && pos > 0, 0..=255u8) {
                     if v5 {
                         if !tables::reason_codes(pt).contains(&n) {
                             put("reason-code-not-in-table", Node::tag(tag, Node::raw(&[n])), Viol::BadReasonCode(pt, n));
@@ -250,7 +259,7 @@ fn candidates(family: Family, ast: &Ast, f: &Frame) -> Vec<(&'static str, String
                 }
             }
             Tag::ConnackFlags => {
-                for n in 2..=255u8 {
+                for n in thin_bytes(thin, 2..=255u8) {
                     put("connack-flags", Node::tag(tag, Node::raw(&[n])), Viol::BadConnackFlags(n));
                 }
             }
@@ -274,20 +283,20 @@ fn candidates(family: Family, ast: &Ast, f: &Frame) -> Vec<(&'static str, String
                         put("subscription-option-bits", Node::tag(tag, Node::raw(&[b])), Viol::BadSubOpts(b));
                     }
                 } else {
-                    for n in 3..=255u8 {
+                    for n in thin_bytes(thin, 3..=255u8) {
                         put("v3-subscribe-qos", Node::tag(tag, Node::raw(&[n])), Viol::BadQos(n));
                     }
                 }
             }
             Tag::PropId(_, _) => {
-                for n in 0..=255u8 {
+                for n in thin_bytes(thin, 0..=255u8) {
                     if tables::prop_def(n).is_none() {
                         put("unknown-property-id", Node::tag(tag, Node::raw(&[n])), Viol::UnknownPropId(n));
                     }
                 }
             }
             Tag::PropByte(_, id) => {
-                for v in 2..=255u8 {
+                for v in thin_bytes(thin, 2..=255u8) {
                     put("byte-property-out-of-range", Node::tag(tag, Node::raw(&[v])), Viol::BadByteProp(id, v));
                 }
             }
@@ -374,7 +383,7 @@ fn candidates(family: Family, ast: &Ast, f: &Frame) -> Vec<(&'static str, String
         let level_path = s.iter().find(|(_, t)| *t == Tag::ProtoLevel).map(|x| x.0.clone()).unwrap();
         let names: &[&[u8]] = &[b"MQTT", b"MQIsdp", b"MQTt", b"MQIsd", b"", b"MQTTT", b"mqtt", b"MQISDP"];
         for name in names {
-            for level in 0..=255u8 {
+            for level in thin_bytes(thin, 0..=255u8) {
                 let known = matches!((&name[..], level), (b"MQIsdp", 3) | (b"MQTT", 4) | (b"MQTT", 5));
                 let viol = if known {
                     if v5 == (level == 5) {
@@ -416,12 +425,14 @@ fn candidates(family: Family, ast: &Ast, f: &Frame) -> Vec<(&'static str, String
         if let Tag::Str(_) | Tag::Bin(_) = tag {
             let here = get(&f.body, &path);
             let c = content(here);
-            for plus in [1u16, 0x100] {
-                if let Some(l) = (c.len() as u16).checked_add(plus) {
+            // a length that certainly runs past the end of the frame (not one that merely shifts the parse)
+            let body_len = f.body.flatten().map(|b| b.len()).unwrap_or(0);
+            for l in [(body_len + 1).min(65535) as u16, 0xFFFFu16] {
+                if l as usize > body_len || l == 0xFFFF {
                     let n = Node::tag(tag, Node::LenRaw(l.to_be_bytes().to_vec(), Box::new(Node::raw(&c))));
                     out.push((
                         "inner-length-past-frame",
-                        format!("{:?}@{:?}+{}", tag, path, plus),
+                        format!("{:?}@{:?}={}", tag, path, l),
                         mk(replace(&f.body, &path, n)),
                         Viol::Truncated,
                     ));
@@ -442,13 +453,13 @@ pub struct CatalogueStats {
 
 /// The single-fault catalogue for one well-formed value: every candidate that the reference
 /// decoder classifies as exactly the intended violation.
-pub fn catalogue(family: Family, ast: &Ast, stats: &mut CatalogueStats) -> Vec<Mal> {
+pub fn catalogue(family: Family, ast: &Ast, stats: &mut CatalogueStats, thin: bool) -> Vec<Mal> {
     let f = match enc::encode(family, ast, enc::Spell::default()) {
         Some(f) => f,
         None => return vec![],
     };
     let mut out = Vec::new();
-    for (kind, site, frame, viol) in candidates(family, ast, &f) {
+    for (kind, site, frame, viol) in candidates(family, ast, &f, thin) {
         stats.candidates += 1;
         let bytes = match frame.bytes() {
             Some(b) => b,
